@@ -104,7 +104,8 @@ Key(x) == [loc |-> x.loc, s |-> x.s, e |-> x.e]
 IsDup(S, ab) ==
   IF Variant = "one_orientation" THEN ab \in S ELSE ab \in S \/ Swap(ab) \in S
 
-\* state of a piler: [piles, seen]; AddFeatures(st, fa, fb, key) adds the mates fa, fb
+\* state of a piler: [piles, seen]; AddMates(st, fa, fb) is Piler.Add of the pair with mates fa, fb:
+\* the new state and whether the pair was accepted
 Empty == [piles |-> {}, seen |-> {}]
 AddMates(st, fa, fb) ==
   LET ab == <<Key(fa), Key(fb)>> IN
@@ -114,7 +115,7 @@ AddMates(st, fa, fb) ==
 (***************************************************************************)
 (* Bounded model: all Add sequences over a small universe                   *)
 (***************************************************************************)
-CONSTANTS Locs, MaxPos, MinLen, MaxPairs, KeepHist    \* Locs: a set 1..k of location numbers
+CONSTANTS Locs, MaxPos, MinLen, MaxPairs, KeepHist, EmitFrom    \* Locs: a set 1..k of location numbers
 
 Coords == {[loc |-> l, s |-> a, e |-> b] : l \in Locs, a \in 0..MaxPos, b \in 0..MaxPos}
 FeatU == {c \in Coords : c.e - c.s >= MinLen}
@@ -145,14 +146,14 @@ Next == n < MaxPairs /\ \E ab \in PairU : Add(ab)
 Spec == Init /\ [][Next]_vars
 
 \* random walks for behaviour emission in simulation mode: one successor per step,
-\* one in three steps re-offers an accepted pair, as added or swapped
+\* one in five steps re-offers an accepted pair, as added or swapped
 GenNext ==
   /\ n < MaxPairs
-  /\ LET r == RandomElement(1..6)
-         ab == IF seen # {} /\ r = 1 THEN RandomElement(seen)
-               ELSE IF seen # {} /\ r = 2 THEN Swap(RandomElement(seen))
-               ELSE RandomElement(PairU)
-     IN Add(ab)
+  /\ \E r \in {RandomElement(1..10)} :
+       \E ab \in {IF seen # {} /\ r = 1 THEN RandomElement(seen)
+                  ELSE IF seen # {} /\ r = 2 THEN Swap(RandomElement(seen))
+                  ELSE RandomElement(PairU)} :
+         Add(ab)
 GenSpec == Init /\ [][GenNext]_vars
 
 Added == UNION {{Mate(ab, 1), Mate(ab, 2)} : ab \in seen}
@@ -181,11 +182,12 @@ SharedIffLinked ==
     \A g \in A : (\E p \in piles : f \in p.members /\ g \in p.members) <=> g \in R
 
 (***************************************************************************)
-(* Behaviour emission (KeepHist = TRUE): every complete Add sequence is     *)
-(* appended to $OUT as one JSON line and replayed on a real pals.Piler.     *)
+(* Behaviour emission (KeepHist = TRUE): every Add sequence of at least     *)
+(* EmitFrom calls is appended to $OUT as one JSON line and replayed on a    *)
+(* real pals.Piler.                                                         *)
 (***************************************************************************)
 EmitBehaviours ==
-  (KeepHist /\ n = MaxPairs) =>
+  (KeepHist /\ n >= EmitFrom) =>
     Serialize(ToJson(hist) \o "\n", IOEnv.OUT,
               [format |-> "TXT", charset |-> "UTF-8",
                openOptions |-> <<"WRITE", "CREATE", "APPEND">>]).exitValue = 0
